@@ -2,7 +2,8 @@
 from . import seqfam
 
 PROFILE = {'topics': 2, 'nops': (50, 140), 'op_w': [5, 2, 8, 0.5, 0.3, 0, 0], 'read_w': [2, 2, 2, 2, 2, 2, 3],
-           'size_w': [6, 3, 1, 1, 0], 'max_bytes': 100_000_000}
+           'size_w': [6, 3, 1, 1, 0], 'max_bytes': 100_000_000,
+           'prelude_small_block': 0.35, 'offset0_extra': 3}
 KINDS = {'peek', 'offset', 'stream', 'count'}
 RULE = ('generated programs mixing appends, consuming reads, peeks (read_next / batch read with checkpoint=false), peek+consume pairs '
         'with identical arguments and offset-addressed batch reads (any offset, checkpoint true or false); around every non-consuming '
